@@ -30,7 +30,7 @@ func (fr *Frame) frameExemptions(c *Contract, f *types.Func, names map[string]*V
 			ex.all = true
 			continue
 		}
-		if strings.HasPrefix(d, "heap(") || d == "big" || d == "streams" || strings.HasPrefix(d, "mapof(") || strings.HasPrefix(d, "ghost(") || strings.HasPrefix(d, "ghostmap(") {
+		if strings.HasPrefix(d, "heap(") || d == "big" || d == "streams" || strings.HasPrefix(d, "mapof(") || strings.HasPrefix(d, "ghost(") || strings.HasPrefix(d, "ghostmap(") || strings.HasPrefix(d, "chansent(") {
 			hs, err := fr.eng.designatorHeaps(c, f, d)
 			if err != nil {
 				return nil, err
